@@ -6,7 +6,7 @@ from sympy                 import Function, Expr
 from sympy                 import sympify
 from sympy                 import cacheit
 from sympy.core            import Basic
-from sympy.core            import Symbol,Integer
+from sympy.core            import Symbol,Integer,Float
 from sympy.core            import Add, Mul, Pow
 from sympy.core.numbers    import ImaginaryUnit
 from sympy.core.containers import Tuple
@@ -264,7 +264,18 @@ class Mapping(BasicMapping):
             obj._jac     = Jacobian(obj)
 
         obj._metric     = obj._jac.T*obj._jac
-        obj._metric_det = obj._metric.det()
+        if obj._metric.atoms(Float):
+            # Matrix.det() simplifies (cancels) its result; with floating-point coefficients this
+            # cancellation is numerically unstable (e.g. CzarnyMapping with float parameters got a
+            # metric determinant that is wrong by an order of magnitude): expand along the first row
+            def cofactor_det(M):
+                if M.rows == 1:
+                    return M[0, 0]
+                return Add(*[(-1)**j * M[0, j] * cofactor_det(M.minor_submatrix(0, j))
+                             for j in range(M.cols)])
+            obj._metric_det = cofactor_det(obj._metric)
+        else:
+            obj._metric_det = obj._metric.det()
 
         return obj
 
